@@ -1,9 +1,9 @@
 SPECIFICATION Spec
 CONSTANTS
   KeyMode = "unique"
-  CacheShared = FALSE
-  WithConvs = FALSE
-  MaxOps = 8
-INVARIANT Isolated
+  CacheShared = TRUE
+  WithConvs = TRUE
+  MaxOps = 6
+INVARIANTS Isolated ConvIsolated
 VIEW StateView
 CHECK_DEADLOCK FALSE
